@@ -4,18 +4,29 @@ from .. import alpha, env, model, seq, seqcheck
 PROPERTY = "C01"
 LEVEL = "model_checking"
 RULE = ("BFS over histories of public mutators (dict and list surface, arguments from a scalar/container "
-        "pool) issued on the root and on retained child handles up to depth 3, plus navigation events; every "
+        "pool) issued on the root and on retained child handles up to depth 3, plus navigation events and a wholesale "
+        "rewrite of the resource by an outside writer between two mutators; every "
         "history replayed on a fresh world of the real class; states merged by a structural hash of the "
         "object graph + reference state; non-trivial = distinct reached states (digest)")
-BOUNDS = {"quick": "18 classes x 2 initial contents, depth 2 (core values); JSON and Buffered families also in the in-place and write_concern write modes (threading off)",
+BOUNDS = {"quick": "18 classes x 2 initial contents, depth 2 (core values), depth 3 for JSONDict/JSONList/MemoryBufferedJSONDict/BufferedJSONList; JSON and Buffered families also in the in-place and write_concern write modes (threading off)",
           "thorough": "18 classes x 2 initial contents, depth 3 (core values); JSONDict/JSONList depth 3 full values"}
 ASSUMPTIONS = ["Redis/MongoDB/Zarr classes are decided against in-process fake stores (stubs for bson/numcodecs)",
                "reference model = built-in dict/list on plain JSON data"]
 
 
+# what an outside writer (another process) leaves in the resource between two mutators: same skeleton as the
+# nested initial content, so retained child handles stay attached, different leaves
+ALT = {"dict": {"a": {"b": [7, {"c": 8}]}, "x": 1}, "list": [7, [8, {"a": 9}], {"b": []}]}
+
+
 def alphabet(ref, task):
     vals = getattr(alpha, task["extra"].get("values", "VALUES_CORE"))
-    return alpha.nav_events(ref) + alpha.mutator_events(ref, vals, rich=task["extra"].get("rich", True))
+    ev = alpha.nav_events(ref) + alpha.mutator_events(ref, vals, rich=task["extra"].get("rich", True))
+    alt = ALT[ref.rootkind]
+    if not model.exact_eq(ref.disk[0], alt):
+        # no read is inserted after it: the next mutator itself has to notice (and must not skip or mis-merge its write)
+        ev.append(("ext", 0, (), alt))
+    return ev
 
 
 class Hooks:
@@ -52,8 +63,14 @@ def plan(tier, seed):
                 depth, extra = 3, {"values": "VALUES_MIN", "rich": True}
                 if c in ("JSONDict", "JSONList"):
                     extra = {"values": "VALUES_CORE", "rich": True}
-            tasks.append(seqcheck.make_task("%s/%s/d%d" % (c, nm, depth), cfg, "alphabet", depth,
-                                            {"resource"}, hooks="probe", extra=extra))
+            if tier == "quick" and c in ("JSONDict", "JSONList", "MemoryBufferedJSONDict", "BufferedJSONList") and nm == "nested":
+                depth = 3
+            kw = dict(label="%s/%s/d%d" % (c, nm, depth), cfg=cfg, alphabet="alphabet", depth=depth,
+                      oracles={"resource"}, hooks="probe", extra=extra)
+            if depth >= 3:
+                tasks += seqcheck.split(16, level=2, **kw)
+            else:
+                tasks.append(seqcheck.make_task(**kw))
             if env.family_of(c) in ("JSON", "Buffered") and nm == "nested":
                 # the two other write modes: in-place (threading off) and write_concern with threading off
                 for mode, wc in (("inplace", False), ("wc", True)):
